@@ -183,3 +183,26 @@ Fixpoint objects_only (pat : pattern) (d : json) : bool :=
 Definition wf_frag (acl : list pattern) (old f : json) : bool :=
   same_schema old f &&
   forallb (fun pat => objects_only pat old && objects_only pat f) acl.
+
+(* representation invariant of Python dicts: keys are unique at every level *)
+Fixpoint uniq (d : json) : bool :=
+  match d with
+  | JObj kvs =>
+    (fix go (kvs : list (string * json)) : bool :=
+       match kvs with
+       | [] => true
+       | (k, v) :: t => negb (existsb (String.eqb k) (map fst t)) && uniq v && go t
+       end) kvs
+  | JArr l =>
+    (fix go (l : list json) : bool :=
+       match l with
+       | [] => true
+       | x :: t => uniq x && go t
+       end) l
+  | _ => true
+  end.
+
+(* guard of the fragment theorems: dict invariant, one schema, patterns address object
+   members only and none of them is the root pointer *)
+Definition wf_C13 (acl : list pattern) (old f : json) : bool :=
+  uniq old && uniq f && wf_frag acl old f && forallb (fun pat => negb (Nat.eqb (List.length pat) 0)) acl.
